@@ -207,3 +207,17 @@ Qed.
 Lemma map_never_fails {S M M'} (p : S -> bytes -> step N S M err) (g : M -> M') :
   (forall s x e, p s x <> Fail e) -> forall s x e, step_map g (p s x) <> Fail e.
 Proof. intros H s x e E. destruct (p s x) eqn:P; try discriminate. cbn in E. now apply H in P. Qed.
+
+(* a decorated parser fails only where the undecorated one does *)
+Lemma drain_map_failed {S M M'} (p : S -> bytes -> step N S M err) (g : M -> M') :
+  forall fuel s x ms e, drain (fun s x => step_map g (p s x)) fuel s x = Failed ms e ->
+  exists ms', drain p fuel s x = Failed ms' e.
+Proof.
+  induction fuel as [|f IH]; intros s x ms e H.
+  - destruct x; discriminate.
+  - destruct x as [|b t]; [discriminate|]. rewrite drain_S. rewrite drain_S in H. cbv beta in H.
+    destruct (p s (b :: t)) as [|e0|m s' r] eqn:P; cbn [step_map] in H; try discriminate.
+    + inversion H; subst. eexists; reflexivity.
+    + destruct (drain (fun s x => step_map g (p s x)) f s' r) as [? ? ?|ms1 e1|] eqn:D; try discriminate.
+      inversion H; subst. destruct (IH _ _ _ _ D) as [ms' E]. rewrite E. eexists; reflexivity.
+Qed.
